@@ -22,8 +22,12 @@ def prepare(prop, extra_targets=()):
     return gate, None
 
 
-def corr(ctx, prop, groups, relevant, what, violations, cov, engine_checks=None):
-    """run the search correspondence; add violations for relevant divergences"""
+def corr(ctx, prop, groups, relevant, what, violations, cov, engine_checks=None, internal=None):
+    """run the search correspondence; add violations for relevant divergences.
+    internal(case, dv) -> True when the divergence is between the engine and the MODEL on an observable that the property does not fix by
+    itself (node counts, which of several equally good moves, cache contents, the text of a line ...): the correspondence is broken,
+    which is reported, but it is not an input on which the property fails — that is for the engine-level judges of the check to find;
+    such a report carries `no-failing-input-found` and names the correspondence."""
     r = S.run(ctx["tier"], ctx["seed"], groups)
     if "error" in r:
         rp = C.write_replay(prop, {"broken": "search correspondence: " + r["error"], "log": r.get("log", "")})
@@ -38,10 +42,16 @@ def corr(ctx, prop, groups, relevant, what, violations, cov, engine_checks=None)
             continue
         seen.add(dv["field"])
         case = r["cases"][i]
-        rp = C.write_replay(prop, {"kind": what, "divergence": dv, "case": case,
-                                   "replay_cmd": "printf '%s | %s | %s\\n' | %s verif search" % (
-                                       case["fen"], " ".join(case["moves"]), ";".join(case["specs"]), C.ENGINE)})
-        violations.append({"replay": rp})
+        is_int = bool(internal and internal(case, dv))
+        payload = {"kind": what, "divergence": dv, "case": case,
+                   "replay_cmd": "printf '%s | %s | %s\\n' | %s verif search" % (
+                       case["fen"], " ".join(case["moves"]), ";".join(case["specs"]), C.ENGINE)}
+        if is_int:
+            payload["broken"] = ("correspondence engine = model on `%s` (search correspondence, lib/searchcorr.py): the theorems of props/%s.v are "
+                                 "about the model, which no longer describes the code on this case; the property itself is judged on the engine by the "
+                                 "other legs of this check" % (dv["field"], prop))
+        rp = C.write_replay(prop, payload)
+        violations.append({"replay": rp, "no_input": is_int})
     if engine_checks:
         n = 0
         for i, (case, eng) in enumerate(zip(r["cases"], r["engine"])):
